@@ -49,6 +49,8 @@ pub struct DirLog {
     pub writer_end: Option<(WriterEnd, u64)>,
     pub reader_started_us: Option<u64>,
     pub read: u64,
+    /// (time, total bytes read so far) after every chunk
+    pub read_log: Vec<(u64, u64)>,
     pub reader_end: Option<(ReaderEnd, u64)>,
     /// number of times a writer's send had to wait (was Pending at least once)
     pub expected: bool,
@@ -220,7 +222,12 @@ async fn run_reader(app: App, k: (usize, usize, bool), key: u64, script: ReaderS
                         check(&app, off, c);
                         off += c.len() as u64;
                     }
-                    app.borrow_mut().dirs.get_mut(&k).unwrap().read = off;
+                    {
+                        let mut a = app.borrow_mut();
+                        let d = a.dirs.get_mut(&k).unwrap();
+                        d.read = off;
+                        d.read_log.push((now_us(), off));
+                    }
                     if !is_open {
                         end = ReaderEnd::Clean;
                         break;
@@ -239,7 +246,12 @@ async fn run_reader(app: App, k: (usize, usize, bool), key: u64, script: ReaderS
                         app.borrow_mut().violations.push(("payload:empty-chunk".into(), format!("client {} stream {:?}: receive() returned an empty chunk at offset {off}", k.0, k)));
                     }
                     off += chunk.len() as u64;
-                    app.borrow_mut().dirs.get_mut(&k).unwrap().read = off;
+                    {
+                        let mut a = app.borrow_mut();
+                        let d = a.dirs.get_mut(&k).unwrap();
+                        d.read = off;
+                        d.read_log.push((now_us(), off));
+                    }
                 }
                 Ok(None) => {
                     end = ReaderEnd::Clean;
